@@ -285,7 +285,52 @@ BROKER_TRUSTED = [
 ]
 
 
+def combine_runs(*runs):
+    """A property served by several harness runs: coverage is added up (distribution keys of later runs are prefixed),
+    violations are concatenated."""
+
+    def run(pid, spec, tier, seed, replay):
+        total = None
+        violations = []
+        for i, (prefix, r) in enumerate(runs):
+            if replay and i > 0:
+                break
+            res = r(pid, spec, tier, seed, replay)
+            cov = res["coverage"]
+            violations.extend(res["violations"])
+            if total is None:
+                total = cov
+                continue
+            for k in ("evaluations", "disagreements", "oracle_failures", "distinct_nontrivial", "shards"):
+                total[k] = total.get(k, 0) + cov.get(k, 0)
+            for k, v in cov.get("distribution", {}).items():
+                total["distribution"][prefix + k] = v
+            total["rule"] = total.get("rule", "") + " | " + prefix + cov.get("rule", "")
+        return {"coverage": total, "violations": violations}
+
+    return run
+
+
+# C04 also looks at the owner's side of event delivery: the client library of the owner filters what it emits by what
+# the broker told it to produce. Scenario B of the `sys` harness (real broker, real clients, PRNG schedule) ends with a
+# probe round: after further subscriptions and unsubscriptions every live service emits one event of each id and every
+# proxy subscribed to it (individually or to all events) must receive it.
+C04_SYS_RULE = ("sys scenario B (real broker, 2-4 real clients under a PRNG-chosen schedule): after random subscribe / "
+                "unsubscribe / subscribe-all operations of all proxies every live service emits one event of each id; "
+                "implementation-only oracle: every proxy subscribed to that id or to all events of the service receives it")
+
+
 def broker_prop(pid, module):
+    if pid == "C04":
+        base = broker_prop("C04*", module)
+        base["run"] = combine_runs(("", base["run"]),
+                                   ("sys.", generic_run("sys", set(), {"C04"}, {"quick": (300, 4), "thorough": (3000, 14)},
+                                                        canon=None, scenario_cmd="cnew", full_canon=lambda q, line: line,
+                                                        extra_args=["B"], rule=C04_SYS_RULE, subdir="-sys")))
+        base["trusted"] = list(base["trusted"]) + ["the owner's client-side subscription record (aldrin/src/client/broker_subscriptions.rs) is "
+                                                   "not modelled; it is exercised by the probe round of sys scenario B only"]
+        return base
+    pid = pid.rstrip("*")
     return {
         "props_module": module,
         "namespace": "Aldrin.Broker",
